@@ -190,7 +190,8 @@ class Framer(tasking.Tasker):
             self.exitAll()
 
         for frame in self.frameNames.values():
-            prunables = [aux for aux in frame.auxes if aux.insular]
+            # all clones of a pruned framer go with it, named ones too, so names become free
+            prunables = [aux for aux in frame.auxes if not aux.original]
             for aux in prunables:
                 aux.prune()
                 frame.auxes.remove(aux)
